@@ -256,6 +256,20 @@ def always_exits(stmts: List[ast.stmt]) -> bool:
     return False
 
 
+def fallthrough_conditions(s: ast.If) -> List[Tuple[ast.expr, bool]]:
+    """Conditions that hold whenever the if statement completes normally."""
+    body_exits = always_exits(s.body)
+    else_exits = bool(s.orelse) and always_exits(s.orelse)
+    if body_exits and not else_exits:
+        out = [(s.test, False)]
+        if len(s.orelse) == 1 and isinstance(s.orelse[0], ast.If):
+            out += fallthrough_conditions(s.orelse[0])
+        return out
+    if else_exits and not body_exits:
+        return [(s.test, True)]
+    return []
+
+
 def block_of(stmt: ast.AST) -> Tuple[Optional[ast.AST], Optional[str], List[ast.stmt]]:
     p = parent(stmt)
     if p is None:
@@ -321,12 +335,8 @@ def dominating_conditions(node: ast.AST, stop: Optional[ast.AST] = None) -> List
             for s in blk:
                 if s is cur:
                     break
-                if isinstance(s, ast.If) and always_exits(s.body) and not s.orelse:
-                    out.append((s.test, False))
-                elif isinstance(s, ast.If) and s.orelse and always_exits(s.orelse) and not always_exits(s.body):
-                    out.append((s.test, True))
-                elif isinstance(s, ast.If) and s.orelse and always_exits(s.body) and not always_exits(s.orelse):
-                    out.append((s.test, False))
+                if isinstance(s, ast.If):
+                    out.extend(fallthrough_conditions(s))
                 elif isinstance(s, ast.Assert):
                     out.append((s.test, True))
         if isinstance(p, ast.If):
